@@ -2,9 +2,17 @@
    workspace perturbations, cache faults and builds sharing one persistent cache.
    Statements only; definitions in theories/Build.v (the model) and theories/Build_ideal.v (the
    clean semantics [ideal], the guards [hist_ok] = every build is load_outputs=all with the cache
-   on, every snapshot satisfies [no_overwrite] and [plain], the visited states are [key_faithful];
-   the invariant [cache_sound]); proofs in theories/Build_c01_proofs.v.  The digest H is
-   idealised as injective. *)
+   on, every snapshot satisfies [no_overwrite] and [plain] (= every target has a command;
+   command-less targets stay excluded), the visited states are [key_faithful]; the invariant
+   [cache_sound]); proofs in theories/Build_c01_proofs.v.  The digest H is idealised as injective.
+
+   No-cache targets are admitted anywhere in the graph (since the no-cache output hash pairs every
+   digest with its output, /repo 76bb2af): [ideal] gives such a target the output hash
+   GetNoCacheOutputHash computes (for a no-cache target without outputs: the hash of the empty item
+   list, not the key), [res_of] the output-less record its execution stores, and nothing of it enters
+   the CAS.  It is never restored (C13_nocache_never_restored); every build that reaches it runs it,
+   and its dependants read what that run wrote.  [key_faithful] asks, besides equal outputs, that two
+   visited states with one key carry the same no-cache tag (the key does not cover the tag). *)
 From Coq Require Import List Ascii String.
 From Grog Require Import Str Label HashKey HashKey_proofs Build Build_ideal Build_c01_proofs.
 Local Open Scope string_scope.
@@ -49,7 +57,9 @@ Print Assumptions C01_cache_sound_every_history.
 
 (* a cached result is served only to a target whose state agrees with the state that produced
    it: the result looked up by the task of a target that ends Hit is the ideal result of a
-   visited target with the same key and the same ideal outputs *)
+   visited target with the same key and the same ideal outputs.  (A no-cache target never ends Hit:
+   C13_nocache_never_restored; the output-less record [res_of] it stores is never used for
+   restoring: a cacheable target with outputs refuses it -- validateTargetResultOutputs -- and runs.) *)
 Theorem C01_hit_only_for_equal_key_state_partial : forall (H : str -> str),
   (forall a b, H a = H b -> a = b) ->
   forall ops cfg roots, hist_ok H ops -> cfg_ok cfg ->
@@ -112,12 +122,29 @@ Theorem C01_guards_nonvacuous :
 Proof. exact c01_guards_nonvacuous. Qed.
 Print Assumptions C01_guards_nonvacuous.
 
-(* the guard [plain] (every target cacheable) stays: the ideal semantics has no clause for no-cache targets.
-   The witness that used to make it necessary -- finding C01-F3: a no-cache dependency n (outputs ox, oy,
-   maintained outside the build) whose two outputs exchange their contents kept its output hash, so the key
-   of its dependant d did not change and d was served stale bytes -- no longer goes through: the no-cache
-   output hash pairs every digest with its output, n's output hash changes with the swap, d's key changes,
-   d is re-executed in the second build and its output is not the one of the first build *)
+(* every guard holds of a history with a no-cache target in the middle of a chain (a; b no-cache with a
+   file and a directory output, depending on a; c depending on b): build; edit a's input; build (all three
+   re-execute); the next build serves a and c from the cache and runs b, whose unchanged outputs give c
+   its old key *)
+Theorem C01_nocache_chain_nonvacuous :
+  exists (H : str -> str) ops cfg roots,
+    (forall a b, H a = H b -> a = b) /\ hist_ok H ops /\ cfg_ok cfg /\
+    (exists s t, In s (snaps ops) /\ In (NTarget t) (s_nodes s) /\ td_nocache t = true /\
+                 td_outs t <> [] /\ td_deps t <> []) /\
+    let y := run_history H ops in
+    let r := build H cfg (sy_src y) roots (sy_world y) (sy_cache y) in
+    map br_status (sy_log y) = [[TExecuted; TExecuted; TExecuted]; [TExecuted; TExecuted; TExecuted]] /\
+    br_status r = [THit; TExecuted; THit] /\ br_ok r = true.
+Proof. exact c01_nocache_chain_nonvacuous. Qed.
+Print Assumptions C01_nocache_chain_nonvacuous.
+
+(* the guard [plain] no longer excludes no-cache targets (it used to: the ideal semantics had no clause for
+   them).  The witness that made the exclusion necessary -- finding C01-F3: a no-cache dependency n (outputs
+   ox, oy, maintained outside the build) whose two outputs exchange their contents kept its output hash, so
+   the key of its dependant d did not change and d was served stale bytes -- no longer goes through: the
+   no-cache output hash pairs every digest with its output, n's output hash changes with the swap, d's key
+   changes, d is re-executed in the second build and its output is not the one of the first build.  (n has no
+   command: this history is outside [plain], which still asks for a command.) *)
 Theorem C01_nocache_swap_changes_key :
   map br_status (sy_log (run_history idH sw_ops)) = [[TExecuted; TExecuted]; [TExecuted; TExecuted]] /\
   rt_ohash (get_rt (sw_state 3) 0) <> rt_ohash (get_rt (sw_state 6) 0) /\
